@@ -212,8 +212,8 @@ def gen_strand(rng):
 def generate(ctx):
     rng = ctx.rng
     cases = []
-    plan = [(c18.gen_api, ctx.n(14, 400)), (c18.gen_scale, ctx.n(5, 120)), (c18.gen_diffs, ctx.n(6, 120)),
-            (c18.gen_smooth, ctx.n(3, 80)), (gen_strand, ctx.n(8, 160))]
+    plan = [(c18.gen_api, ctx.n(14, 200)), (c18.gen_scale, ctx.n(5, 60)), (c18.gen_diffs, ctx.n(6, 60)),
+            (c18.gen_smooth, ctx.n(3, 40)), (gen_strand, ctx.n(8, 80))]
     for g, n in plan:
         for _ in range(n):
             c = dict(g(rng))
